@@ -20,6 +20,12 @@ pub trait AtomicIter<T: Send + Sync>: Send + Sync {
     /// Returns the next item that the iterator yields; returns None if the iteration has completed.
     #[inline(always)]
     fn fetch_one(&self) -> Option<Next<T>> {
+        // the counter keeps counting the calls made after the end of the iteration;
+        // it must not wrap around to positions that have already been yielded
+        if self.counter().current() == usize::MAX {
+            return None;
+        }
+
         let idx = self.counter().fetch_and_increment();
         self.get(idx).map(|value| Next { idx, value })
     }
